@@ -34,6 +34,8 @@ def field_attr(f):
         return '#[codec(compact)] #[codec(encoded_as = "Compact<%s>")] ' % RUST_TY[f["ty"]]
     if a == "skip,compact":
         return "#[codec(skip, compact)] "
+    if a == "skip+encoded_as":
+        return '#[codec(skip)] #[codec(encoded_as = "Compact<%s>")] ' % RUST_TY[f["ty"]]
     raise ValueError(a)
 
 
@@ -72,6 +74,8 @@ def type_src(name, d, derives):
         vs = []
         for i in range(d["n"]):
             a = "#[codec(index = %d)] " % first if (first is not None and i == 0) else ""
+            if d.get("skip_first") and i == 0:
+                a = "#[codec(skip)] "
             vs.append("\t%sV%d," % (a, i))
         return "#[derive(%s)]\npub enum %s {\n%s\n}\n" % (derives, name, "\n".join(vs))
     if d["kind"] == "union":
@@ -261,6 +265,11 @@ def cmd_layout(path, seed, count, out):
 SPECIALS = [
     dict(kind="bigenum", n=256), dict(kind="bigenum", n=257), dict(kind="bigenum", n=256, first_attr=255),
     dict(kind="bigenum", n=3, first_attr=2), dict(kind="bigenum", n=3, first_attr=7),
+    dict(kind="bigenum", n=257, skip_first=True), dict(kind="bigenum", n=258, skip_first=True),
+    dict(kind="struct", shape="named", transparent=False, fs=[dict(ty="u32", attr="none"), dict(ty="u64", attr="skip+compact")]),
+    dict(kind="struct", shape="tuple", transparent=False, fs=[dict(ty="u32", attr="none"), dict(ty="u64", attr="skip+encoded_as")]),
+    dict(kind="struct", shape="named", transparent=False, fs=[dict(ty="u8", attr="none"), dict(ty="u32", attr="none"), dict(ty="u64", attr="compact+encoded_as")]),
+    dict(kind="struct", shape="named", transparent=False, fs=[dict(ty="u32", attr="none"), dict(ty="u64", attr="skip")]),
     dict(kind="union"),
     dict(kind="compactas", shape="struct", nonskipped=1), dict(kind="compactas", shape="struct", nonskipped=2),
     dict(kind="compactas", shape="struct", nonskipped=0), dict(kind="compactas", shape="enum", nonskipped=1),
